@@ -93,7 +93,8 @@ def call(kind, ds, ss, nm, unit, cand, algs=None, warm=None):
                         _ = c0.description()
                     except Exception:
                         pass
-            c = alg.compute_consensus_rankings(ds, ss, True)
+            # local searches return every best ranking found: more sensitive to a lost or altered starting point
+            c = alg.compute_consensus_rankings(ds, ss, kind not in ("bioconsert", "bioco", "bio2"))
             return {"v": _cons(c, nm, unit)}
         if kind == "handbuilt_score":
             # a consensus built by hand that ranks only part of the elements (a "top-k"): reading its score may be
